@@ -52,6 +52,12 @@ CLAIMED = {
             "timing: multi-megabyte responses against a stalled reader / closed HTTP/2 window with a byte ledger sampled during the "
             "stall, liveness of a second connection and a sibling stream, and a 1 s bound on pending sends after the release event.",
             "512 KiB + one chunk is used as the fixed bound; WebSocket-over-HTTP/2 pressure is exercised by C10 (F21)"),
+    "C12": ("5/C12", "Complete enumeration of all send sequences up to length 4 (quick) / 5 (thorough) over the reduced ASGI alphabet for "
+            "HTTP/1.1, HTTP/2 and WebSocket on both carriers and workers, judged against a reference automaton of the ASGI "
+            "specification with a before/after byte ledger of the server socket for every rejected message; seeded runs add longer "
+            "sequences, the extended alphabet, all bad-payload kinds and a client FIN/RST at a tape-chosen point. The enumeration "
+            "decides; the simulator carries the live connection and the closure timing.",
+            "a trailers-only response (http.response.trailers before any start on HTTP/2) is a deliberate hypercorn extension and is not judged; leading/trailing whitespace in header bytes is stripped rather than rejected"),
 }
 
 NOT_APPLICABLE = {
